@@ -23,6 +23,10 @@ impl Prop for C36 {
 
     fn gen(&self, rng: &mut Rng, n: usize, tier: Tier, out: &mut Vec<String>) {
         for _ in 0..n {
+            if rng.chance(1, 3) {
+                gen_loop_case(rng, tier, out);
+                continue;
+            }
             out.push("reset".to_string());
             let len = if tier == Tier::Thorough { rng.range(1, 120) } else { rng.range(1, 40) };
             // generator-side bookkeeping only to produce mostly-valid ops
@@ -101,9 +105,81 @@ impl Prop for C36 {
     }
 }
 
+/// a case driven through the real `SubscriptionEventLoop`: external triggers, responses (with and
+/// without `more_notifications`), failures of every kind, disconnects
+fn gen_loop_case(rng: &mut Rng, tier: Tier, out: &mut Vec<String>) {
+    let max_publish = *rng.pick(&[1u64, 2, 3]);
+    out.push(format!("reset {}", max_publish));
+    let len = if tier == Tier::Thorough { rng.range(1, 80) } else { rng.range(1, 30) };
+    let mut inflight: Vec<u64> = Vec::new();
+    let mut next_id = 0u64;
+    let mut connected = true;
+    let mut seq = 0u64;
+    for _ in 0..len {
+        let w_done = if inflight.is_empty() { 0 } else { 10 };
+        match rng.weighted(&[6, w_done, w_done / 2, 1, 1]) {
+            0 => {
+                out.push("trigger".to_string());
+                if connected {
+                    inflight.push(next_id);
+                    next_id += 1;
+                }
+            }
+            1 => {
+                let k = rng.below(inflight.len() as u64) as usize;
+                let id = inflight.remove(k);
+                let more = rng.chance(1, 3);
+                let kind = *rng.pick(&["data", "data", "data", "kanone", "kaempty"]);
+                if kind == "data" {
+                    seq += 1;
+                }
+                out.push(format!("lcomplete {} {} {} {} {}", id, rng.range(1, 2), seq + (kind != "data") as u64, b(more), kind));
+                if more && connected {
+                    inflight.push(next_id);
+                    next_id += 1;
+                }
+            }
+            2 => {
+                let k = rng.below(inflight.len() as u64) as usize;
+                let id = inflight.remove(k);
+                match rng.weighted(&[5, 1, 3, 1]) {
+                    0 => {
+                        out.push(format!("lfail {} timeout", id));
+                        // retried at once when below the limit
+                        if connected && (inflight.len() as u64) < max_publish {
+                            inflight.push(next_id);
+                            next_id += 1;
+                        }
+                    }
+                    1 => out.push(format!("lfail {} closed", id)),
+                    2 => {
+                        let st = *rng.pick(&[0x8078_0000u32, 0x8079_0000, 0x8025_0000, 0x800A_0000]);
+                        out.push(format!("lfail {} fault {}", id, st));
+                        if st == 0x800A_0000 && connected && (inflight.len() as u64) < max_publish {
+                            inflight.push(next_id);
+                            next_id += 1;
+                        }
+                    }
+                    _ => out.push(format!("lfail {} wrongtype", id)),
+                }
+            }
+            3 => {
+                connected = !connected || rng.chance(1, 3);
+                out.push(format!("connected {}", b(connected)));
+            }
+            _ => match rng.below(3) {
+                0 => out.push(format!("lcomplete {} 1 1 0 data", next_id + rng.below(3))),
+                1 => out.push(format!("lfail {} timeout", next_id + rng.below(3))),
+                _ => out.push(format!("addsub {}", rng.range(1, 3))),
+            },
+        }
+    }
+}
+
 struct Flight {
     callback: tokio::sync::oneshot::Sender<Result<SupportedMessage, StatusCode>>,
-    handle: tokio::task::JoinHandle<Result<bool, StatusCode>>,
+    /// `None`: the future belongs to the subscription event loop
+    handle: Option<tokio::task::JoinHandle<Result<bool, StatusCode>>>,
     request_handle: u32,
 }
 
@@ -125,6 +201,8 @@ struct R {
     sent_inflight: BTreeMap<u64, Vec<Ack>>,
     any_failed: bool,
     any_keepalive: bool,
+    /// the REAL `SubscriptionEventLoop::run()` stream (created at the first loop op)
+    sub_loop: Option<hk::VSubLoop>,
 }
 
 fn bump(m: &mut BTreeMap<Ack, i64>, a: Ack, d: i64) {
@@ -137,6 +215,10 @@ fn bump(m: &mut BTreeMap<Ack, i64>, a: Ack, d: i64) {
 
 impl R {
     fn new() -> R {
+        R::with_max_publish(2)
+    }
+
+    fn with_max_publish(max_publish: usize) -> R {
         let rt = tokio::runtime::Builder::new_current_thread().enable_all().build().unwrap();
         let pki = fixtures::scratch_dir().join("c36-pki");
         let mut client = ClientBuilder::new()
@@ -146,6 +228,7 @@ impl R {
             .create_sample_keypair(false)
             .trust_server_certs(true)
             .session_retry_limit(0)
+            .max_inflight_publish(max_publish)
             .client()
             .expect("client");
         let endpoint: EndpointDescription = ("opc.tcp://127.0.0.1:4855/", "None", MessageSecurityMode::None).into();
@@ -156,6 +239,9 @@ impl R {
                 .expect("session")
         };
         let recv = Some(hk::session_attach_channel(&session, 64));
+        // the subscription event loop exists from the start (SessionEventLoop creates it on connect), so
+        // that it has seen the trigger channel's initial value before any trigger is sent
+        let sub_loop = Some(hk::session_subscription_loop(&session));
         R {
             rt,
             _client: client,
@@ -168,6 +254,7 @@ impl R {
             sent_inflight: BTreeMap::new(),
             any_failed: false,
             any_keepalive: false,
+            sub_loop,
         }
     }
 
@@ -260,6 +347,71 @@ impl R {
         }
     }
 
+    /// Polls the real event-loop stream until it is pending; returns what became visible, in order:
+    /// `S<id>:<acks>` a publish request reached the transport, `P` / `F<status>` the stream's items.
+    fn pump_loop(&mut self) -> (Vec<String>, Verdict) {
+        use std::future::Future;
+        use std::task::{Context, Poll};
+        if self.sub_loop.is_none() {
+            self.sub_loop = Some(hk::session_subscription_loop(&self.session));
+        }
+        let mut evs = Vec::new();
+        let mut verdict = Verdict::Ok;
+        for _ in 0..64 {
+            let polled = {
+                let _g = self.rt.enter();
+                let l = self.sub_loop.as_mut().unwrap();
+                let waker = noop_waker();
+                let mut cx = Context::from_waker(&waker);
+                let mut fut = Box::pin(l.next());
+                fut.as_mut().poll(&mut cx)
+            };
+            // requests the publish futures handed to the transport during this poll
+            while let Some(msg) = self.recv.as_mut().and_then(|r| r.try_recv()) {
+                if let SupportedMessage::PublishRequest(r) = &msg.request {
+                    let acks: Vec<Ack> = r
+                        .subscription_acknowledgements
+                        .iter()
+                        .flatten()
+                        .map(|a| (a.subscription_id, a.sequence_number))
+                        .collect();
+                    let txt = match &r.subscription_acknowledgements {
+                        None => "-".to_string(),
+                        Some(v) => format!(
+                            "[{}]",
+                            v.iter().map(|a| format!("{}:{}", a.subscription_id, a.sequence_number)).collect::<Vec<_>>().join(",")
+                        ),
+                    };
+                    let v = self.check_request(&acks);
+                    if matches!(verdict, Verdict::Ok) {
+                        verdict = v;
+                    }
+                    let id = self.next_id;
+                    self.next_id += 1;
+                    evs.push(format!("S{}:{}", id, txt));
+                    self.sent_inflight.insert(id, acks);
+                    self.flights.insert(
+                        id,
+                        Flight {
+                            callback: msg.callback.expect("publish expects a response"),
+                            handle: None,
+                            request_handle: r.request_header.request_handle,
+                        },
+                    );
+                }
+            }
+            match polled {
+                Poll::Ready(Some(Ok(()))) => evs.push("P".to_string()),
+                Poll::Ready(Some(Err(e))) => evs.push(format!("F{}", e.bits())),
+                Poll::Ready(None) | Poll::Pending => break,
+            }
+        }
+        if matches!(verdict, Verdict::Ok) {
+            verdict = self.check_conservation();
+        }
+        (evs, verdict)
+    }
+
     fn finish(&mut self, id: u64) -> Option<(Flight, Vec<Ack>)> {
         let f = self.flights.remove(&id)?;
         let acks = self.sent_inflight.remove(&id).unwrap_or_default();
@@ -279,6 +431,61 @@ fn data_change(seq: u32) -> ExtensionObject {
     ExtensionObject::from_encodable(ObjectId::DataChangeNotification_Encoding_DefaultBinary, &dcn)
 }
 
+fn publish_response(request_handle: u32, sub: u32, seq: u32, more: bool, kind: &str) -> PublishResponse {
+    PublishResponse {
+        response_header: response_header(request_handle, StatusCode::Good),
+        subscription_id: sub,
+        available_sequence_numbers: None,
+        more_notifications: more,
+        notification_message: NotificationMessage {
+            sequence_number: seq,
+            publish_time: DateTime::now(),
+            notification_data: match kind {
+                "kanone" => None,
+                "kaempty" => Some(vec![]),
+                _ => Some(vec![data_change(seq)]),
+            },
+        },
+        results: None,
+        diagnostic_infos: None,
+    }
+}
+
+/// makes the request fail the way the op says
+fn fail_flight(callback: tokio::sync::oneshot::Sender<Result<SupportedMessage, StatusCode>>, request_handle: u32, how: &[&str]) {
+    match how {
+        ["timeout"] => {
+            let _ = callback.send(Err(StatusCode::BadTimeout));
+        }
+        ["closed"] => drop(callback),
+        ["fault", st] => {
+            let st: u32 = st.parse().unwrap();
+            let fault = ServiceFault {
+                response_header: response_header(request_handle, StatusCode::from_bits_truncate(st)),
+            };
+            let _ = callback.send(Ok(fault.into()));
+        }
+        _ => {
+            let resp = ReadResponse {
+                response_header: response_header(request_handle, StatusCode::Good),
+                results: None,
+                diagnostic_infos: None,
+            };
+            let _ = callback.send(Ok(resp.into()));
+        }
+    }
+}
+
+fn noop_waker() -> std::task::Waker {
+    use std::task::{RawWaker, RawWakerVTable, Waker};
+    fn clone(_: *const ()) -> RawWaker {
+        RawWaker::new(std::ptr::null(), &VTABLE)
+    }
+    fn noop(_: *const ()) {}
+    static VTABLE: RawWakerVTable = RawWakerVTable::new(clone, noop, noop, noop);
+    unsafe { Waker::from_raw(RawWaker::new(std::ptr::null(), &VTABLE)) }
+}
+
 fn response_header(request_handle: u32, status: StatusCode) -> ResponseHeader {
     ResponseHeader {
         timestamp: DateTime::now(),
@@ -294,6 +501,11 @@ impl Runner for R {
     fn step(&mut self, toks: &[&str]) -> (String, Verdict) {
         match toks {
             ["reset"] => (format!("ok {}", self.state()), Verdict::Ok),
+            ["reset", n] => {
+                // a fresh session whose event loop allows `n` publish requests in flight
+                *self = R::with_max_publish(n.parse().unwrap());
+                (format!("ok {}", self.state()), Verdict::Ok)
+            }
             ["start"] => {
                 let fut = hk::session_publish(self.session.clone());
                 let handle = self.rt.spawn(fut);
@@ -341,7 +553,7 @@ impl Runner for R {
                     id,
                     Flight {
                         callback: msg.callback.expect("publish expects a response"),
-                        handle,
+                        handle: Some(handle),
                         request_handle,
                     },
                 );
@@ -357,6 +569,9 @@ impl Runner for R {
                 let seq: u32 = seq.parse().unwrap();
                 let more = *more == "1";
                 if !["data", "kanone", "kaempty"].contains(kind) {
+                    return ("bad-op".to_string(), Verdict::Ok);
+                }
+                if self.flights.get(&id).map(|f| f.handle.is_none()).unwrap_or(true) {
                     return ("bad-op".to_string(), Verdict::Ok);
                 }
                 let Some((f, acks)) = self.finish(id) else {
@@ -380,7 +595,7 @@ impl Runner for R {
                     diagnostic_infos: None,
                 };
                 let _ = f.callback.send(Ok(resp.into()));
-                let r = self.rt.block_on(f.handle).expect("join");
+                let r = self.rt.block_on(f.handle.unwrap()).expect("join");
                 // the request was answered: what it carried has been delivered; one more is owed
                 for a in acks {
                     bump(&mut self.sent_ok, a, 1);
@@ -403,32 +618,16 @@ impl Runner for R {
             }
             ["fail", id, rest @ ..] => {
                 let id: u64 = id.parse().unwrap();
+                if self.flights.get(&id).map(|f| f.handle.is_none()).unwrap_or(true) {
+                    return ("bad-op".to_string(), Verdict::Ok);
+                }
                 let Some((f, _acks)) = self.finish(id) else {
                     return ("bad-op".to_string(), Verdict::Ok);
                 };
                 self.any_failed = true;
-                match rest {
-                    ["timeout"] => {
-                        let _ = f.callback.send(Err(StatusCode::BadTimeout));
-                    }
-                    ["closed"] => drop(f.callback),
-                    ["fault", st] => {
-                        let st: u32 = st.parse().unwrap();
-                        let fault = ServiceFault {
-                            response_header: response_header(f.request_handle, StatusCode::from_bits_truncate(st)),
-                        };
-                        let _ = f.callback.send(Ok(fault.into()));
-                    }
-                    _ => {
-                        let resp = ReadResponse {
-                            response_header: response_header(f.request_handle, StatusCode::Good),
-                            results: None,
-                            diagnostic_infos: None,
-                        };
-                        let _ = f.callback.send(Ok(resp.into()));
-                    }
-                }
-                let r = self.rt.block_on(f.handle).expect("join");
+                let handle = f.handle.unwrap();
+                fail_flight(f.callback, f.request_handle, rest);
+                let r = self.rt.block_on(handle).expect("join");
                 // the request failed: what it carried is owed again (dropped from sent_inflight above)
                 let v = self.check_conservation();
                 match r {
@@ -438,6 +637,54 @@ impl Runner for R {
                         Verdict::fail("failure_reported", "-", "publish returned Ok for a failed request"),
                     ),
                 }
+            }
+            ["trigger"] => {
+                hk::session_trigger_publish(&self.session);
+                let (evs, v) = self.pump_loop();
+                (format!("ok ev=[{}] {}", evs.join(","), self.state()), v)
+            }
+            ["lcomplete", id, sub, seq, more, kind] => {
+                let id: u64 = id.parse().unwrap();
+                let sub: u32 = sub.parse().unwrap();
+                let seq: u32 = seq.parse().unwrap();
+                let more = *more == "1";
+                if !["data", "kanone", "kaempty"].contains(kind) {
+                    return ("bad-op".to_string(), Verdict::Ok);
+                }
+                if self.flights.get(&id).map(|f| f.handle.is_some()).unwrap_or(true) {
+                    return ("bad-op".to_string(), Verdict::Ok);
+                }
+                let (f, acks) = self.finish(id).unwrap();
+                let resp = publish_response(f.request_handle, sub, seq, more, kind);
+                let _ = f.callback.send(Ok(resp.into()));
+                for a in acks {
+                    bump(&mut self.sent_ok, a, 1);
+                }
+                if *kind == "data" {
+                    bump(&mut self.received, (sub, seq), 1);
+                } else {
+                    self.any_keepalive = true;
+                }
+                let (evs, v) = self.pump_loop();
+                // a response must be reported as a publish
+                let v = match v {
+                    Verdict::Ok if evs.first().map(|e| e.as_str()) != Some("P") => {
+                        Verdict::fail("response_accepted", "-", format!("the loop reported {:?} for a PublishResponse", evs))
+                    }
+                    v => v,
+                };
+                (format!("ok ev=[{}] {}", evs.join(","), self.state()), v)
+            }
+            ["lfail", id, rest @ ..] => {
+                let id: u64 = id.parse().unwrap();
+                if self.flights.get(&id).map(|f| f.handle.is_some()).unwrap_or(true) {
+                    return ("bad-op".to_string(), Verdict::Ok);
+                }
+                let (f, _acks) = self.finish(id).unwrap();
+                self.any_failed = true;
+                fail_flight(f.callback, f.request_handle, rest);
+                let (evs, v) = self.pump_loop();
+                (format!("ok ev=[{}] {}", evs.join(","), self.state()), v)
             }
             ["connected", c] => {
                 if *c == "1" {
@@ -454,7 +701,7 @@ impl Runner for R {
                 let id: u32 = id.parse().unwrap();
                 let sub = Subscription::new(
                     id,
-                    Duration::from_millis(100),
+                    Duration::from_secs(86_400),
                     10,
                     3,
                     0,
@@ -479,7 +726,9 @@ impl Drop for R {
     fn drop(&mut self) {
         // abort publish futures still waiting for a response
         for (_, f) in std::mem::take(&mut self.flights) {
-            f.handle.abort();
+            if let Some(h) = f.handle {
+                h.abort();
+            }
         }
     }
 }
